@@ -637,11 +637,12 @@ func aggregatorTargetRange(c *eng.Ctx) {
 // sequentialCursorRules: encoding.TSDDecoder is a forward-only cursor over a bit stream: HasValueWithSlot(s) answers and
 // advances only for the slot the cursor stands on, and a set has-value bit is followed by the value's bits, which only
 // Value() consumes.  Two necessary conditions for every reader of such a stream:
-//  (1) aggregation.DownSampling asks its getter for EVERY source slot from source.Start on, before any range test can
-//      skip the slot (otherwise the cursor never moves past the slots before the query start and the rest of the block
-//      reads as empty);
-//  (2) wherever HasValueWithSlot / HasValue answered true, Value() is called before the next has-value question
-//      (otherwise the value's bits are read as the next slots' flags).
+//
+//	(1) aggregation.DownSampling asks its getter for EVERY source slot from source.Start on, before any range test can
+//	    skip the slot (otherwise the cursor never moves past the slots before the query start and the rest of the block
+//	    reads as empty);
+//	(2) wherever HasValueWithSlot / HasValue answered true, Value() is called before the next has-value question
+//	    (otherwise the value's bits are read as the next slots' flags).
 func sequentialCursorRules(c *eng.Ctx) {
 	p := c.P
 	ds := c.Fn("aggregation.DownSampling")
